@@ -81,6 +81,17 @@ func (s *c02State) planAndRender(leg c02Leg, nonce string, defects []c02Defect, 
 			}
 		}
 	}
+	if r.Assertion != nil {
+		var kept []string
+		for _, d := range realised {
+			if c02RequestLevel[strings.TrimPrefix(d, "~")] {
+				kept = append(kept, d)
+			} else {
+				s.x.Class("defect-cancelled-by-envelope-override:" + d)
+			}
+		}
+		realised = kept
+	}
 	var rd c02Rendered
 	var werr error
 	if useWallet {
@@ -127,6 +138,20 @@ var c02NoExpectation = map[string]bool{"aud_equivalent": true, "aud_array_contai
 // c02NeedsRequiredDescriptors: defects that are defects only because the definition requires a credential for the
 // descriptor concerned. Against a definition whose requirements have no lower bound (lax) they carry no expectation.
 var c02NeedsRequiredDescriptors = map[string]bool{"nothing_presented": true, "unfulfilled": true, "forged_map": true}
+
+func c02LooseClaims(defects []string) bool {
+	for _, d := range defects {
+		if strings.HasPrefix(d, "~") && c02NeedsRequiredDescriptors[d[1:]] {
+			return true
+		}
+	}
+	return false
+}
+
+// c02RequestLevel: deviations that remain when the envelope is replaced wholesale (assertion override): everything
+// that lives inside a presentation is then not sent at all
+var c02RequestLevel = map[string]bool{"nothing_presented": true, "garbage": true, "scope_unknown": true, "scope_other": true,
+	"scope_near_miss": true, "param_missing": true, "foreign_definition": true}
 
 // c02Strict returns the deviations that carry the "must be refused" expectation, and whether there are others.
 func c02Strict(defects []string) (strict []string, soft bool) {
@@ -233,6 +258,15 @@ func (s *c02State) mainS2S() func() c02TokenResult {
 	}
 	clientID := c02ClientIDs[c.ClientID]
 	r, rd, realised := s.planAndRender(leg, nonce, c.Defects, s.scope().Name, clientID)
+	if r.Assertion != nil {
+		var kept []string
+		for _, d := range defects {
+			if d != "nonce_reused" { // no presentation, hence no nonce, is sent
+				kept = append(kept, d)
+			}
+		}
+		defects = kept
+	}
 	defects = append(defects, realised...)
 	body := s.s2sBody(r, rd)
 	if body.Scope != nil {
@@ -247,7 +281,9 @@ func (s *c02State) mainS2S() func() c02TokenResult {
 	s.judge("main", res, defects)
 	if res.Token != nil {
 		// (if issued despite defects - already reported - it is still tracked so that the history can run)
-		s.record(res, clientID, *r.Scope, []*c02Request{r}, []c02Rendered{rd}).Tainted = len(defects) > 0
+		is := s.record(res, clientID, *r.Scope, []*c02Request{r}, []c02Rendered{rd})
+		is.Tainted = len(defects) > 0
+		is.LooseClaims = c02LooseClaims(defects)
 	}
 	return send
 }
@@ -599,7 +635,9 @@ func (s *c02State) mainCode() func() c02TokenResult {
 	s.judge("main", res, defects)
 	if res.Token != nil {
 		strict, _ := c02Strict(defects)
-		s.record(res, clientID, authScope, reqs, rds).Tainted = len(strict) > 0
+		is := s.record(res, clientID, authScope, reqs, rds)
+		is.Tainted = len(strict) > 0
+		is.LooseClaims = c02LooseClaims(defects)
 	}
 	return send
 }
